@@ -161,8 +161,8 @@ def check_property_file(ctx, pid, gen_status, gens_needed):
             out = pout
     if not ok:
         err = first_error(out)
-        for t in thms:
-            ctx.obligation('theorem:' + t, False, 'does not build: ' + err)
+        for i, t in enumerate(thms):
+            ctx.obligation('theorem:' + t, False, ('does not build: ' + err) if i == 0 else 'does not build (same failure)')
         return False
     # parse Print Assumptions blocks in order
     blocks = re.split(r'(?=^Closed under the global context|^Axioms:)', out, flags=re.M)
